@@ -56,7 +56,7 @@ def run_extract():
         rc, txt = sh([sys.executable, os.path.join(ROOT, "tools/extract.py"), "--repo", REPO,
                       "--out", os.path.join(LEAN, "MemchrModel/Generated"), "--json", out])
     if rc != 0:
-        return {"broken": ["extract.py failed: " + txt[-2000:]], "consts": {}, "facts": {}, "pins": {}}
+        return {"broken": ["extract.py failed: " + txt[-2000:]], "soft": [], "consts": {}, "facts": {}, "pins": {}}
     with open(out) as f:
         res = json.load(f)
     os.unlink(out)
